@@ -95,6 +95,29 @@ class KM(KB):
         return hash(("KM", self.ident))
 
 
+class KZ(KB):
+    """Byte compression where the class's own bytes are already a zlib stream (a class that packs its representation itself):
+    whatever the database stores must still come back as the class."""
+
+    def to_bytes(self):
+        import zlib
+
+        return zlib.compress(super().to_bytes() * (1 + self.ident % 4))
+
+    @classmethod
+    def from_bytes(cls, b):
+        import zlib
+
+        i, e = zlib.decompress(b).decode().split(":")[:2]
+        return cls(int(i), bool(int(e[0])))
+
+    def __eq__(self, other):
+        return isinstance(other, KZ) and self.ident == other.ident
+
+    def __hash__(self):
+        return hash(("KZ", self.ident))
+
+
 def out_of(f):
     try:
         r = f()
@@ -314,7 +337,7 @@ def run(tier, seed, factor=1):
     text, metas = [], []
     for i in range(n):
         empties, ops = rand_case(rnd)
-        for cls in (K, KB, KBW, KM):
+        for cls in (K, KB, KBW, KM, KZ):
             lines, outs = run_history(res, cls, empties, ops)
             res.case((cls.__name__, tuple(sorted(empties)), tuple(ops)),
                      nontrivial=len(ops) >= 3 and len({o[1] for o in ops if o[0] in ("L", "S", "A")}) >= 2)
@@ -372,6 +395,6 @@ def replay(case):
         o = searcher_worker(inp)
         return {"signature": o["problems"][0][0], "input": inp, "detail": o["problems"][0][1]} if o["problems"] else None
     r = common.Result("C15")
-    cls = {"K": K, "KB": KB, "KBW": KBW, "KM": KM, True: KB, False: K}[inp["compress"]]
+    cls = {"K": K, "KB": KB, "KBW": KBW, "KM": KM, "KZ": KZ, True: KB, False: K}[inp["compress"]]
     run_history(r, cls, set(inp["empties"]), [tuple(o) for o in inp["ops"]])
     return r.failures[0] if r.failures else None
